@@ -228,12 +228,11 @@ def check_while(ctx, f, nd, i):
                 rb = None
                 if e.kind == 'aug' and e.term[0] == 'bin' and e.term[1] in ('//', '>>'):
                     rb = True if e.term[1] == '>>' and e.extra[0] == 'c' and e.extra[1] >= 1 else radix_ok(e.extra)
-                if e.kind == 'def' and e.term[0] == 'item' and e.term[2] == 0 and is_call(e.term[1], 'builtins.divmod') \
-                        and len(e.term[1][2]) == 2:
-                    rb = radix_ok(e.term[1][2][1])
+                if e.kind == 'def' and e.term[0] == 'bin' and e.term[1] == '//' and e.term[2][0] == 'v' and e.term[2][1] == v:
+                    rb = radix_ok(e.term[3])        # q, r = divmod(v, b)  is  q = v // b
                 if rb is True:
                     ok = True
-                elif rb is None and (e.kind == 'aug' or (e.kind == 'def' and e.term[0] == 'item')):
+                elif rb is None and (e.kind == 'aug' or (e.kind == 'def' and e.term[0] in ('item', 'bin'))):
                     maybe = True
             elif kind == 'str0':
                 if e.kind == 'def' and e.term[0] == 'item' and e.term[2] == 0 and call_name(e.term[1]) and \
